@@ -486,3 +486,47 @@ def heap_position_typestate(chk, cid, prog, cfgname):
     if n < 4:
         raise AnalysisBroken('%s: %d heap calls in column scans found, expected 4' % (cid, n))
     return n
+
+
+def ldperm_copyout_rule(chk, cid, prog, cfgname):
+    """?ldperm returns MC64's scaling vectors by copying dw[0..n) and dw[n..2n) into u and v.  MC64 answers with a *warning* (info[0] = 2,
+    "scaling factors large") for a structurally nonsingular matrix of very wide magnitude range: the permutation and the (logarithmic)
+    scalings it returns are still the correct ones.  The copy-out must therefore depend on the job only; guarding it with the status leaves
+    u and v unwritten exactly for those matrices."""
+    from ..facts import strip, canon, loc, root_ref
+    from ..ir import pretty
+    from ..run import AnalysisBroken
+    chk.clause(cid, '?ldperm copies the scaling vectors out whenever the scaling job was requested (not only when MC64 reports no warning)')
+    n = 0
+    for p in 'sdcz':
+        f = prog.func(p + 'ldperm')
+        if f is None:
+            raise AnalysisBroken('%sldperm not found' % p)
+        chk.saw(unit=f.unit, func=f.unit + ':' + f.name)
+        uid = {nm: i for (nm, i, t) in f.params}.get('u')
+        guards = []
+
+        def walk(x, gs):
+            if x.k == 'If':
+                walk(x.c[1], gs + [x.c[0]])
+                if len(x.c) > 2 and x.c[2] is not None:
+                    walk(x.c[2], gs)
+                return
+            if x.k == 'Assign' and strip(x.c[0]).k == 'Index' and root_ref(x.c[0]) is not None and root_ref(x.c[0]).a.get('id') == uid:
+                guards.append((x, list(gs)))
+            for c in x.c:
+                walk(c, gs)
+        walk(f.body, [])
+        if not guards:
+            raise AnalysisBroken('%sldperm: copy-out of u[] not found' % p)
+        x, gs = guards[0]
+        n += 1
+        inst = '%sldperm:scalings-copied-for-every-status' % p
+        bad = [g for g in gs if any(y.k == 'Ref' and y.a.get('name') == 'info' for y in g.walk())]
+        if not bad:
+            chk.ok(cid, inst, sample='`%s` under %s' % (pretty(x)[:30], ' && '.join(pretty(g)[:20] for g in gs) or 'no guard'))
+        else:
+            chk.violate(cid, inst, loc(f, x), f.name,
+                        '`%s` is executed only under `%s`: for a matrix on which MC64 returns a warning (large scaling factors) the caller gets a valid permutation '
+                        'but u and v are never written' % (pretty(x)[:30], pretty(bad[0])[:40]), cfgname=cfgname)
+    return n
